@@ -34,6 +34,10 @@
 /* ------------------------------------------------------------------ */
 /* alphabets                                                           */
 /* ------------------------------------------------------------------ */
+/* long members: lines beyond the emitter's page width (80), with and
+   without spaces to break at, with indented continuation lines, and beyond
+   the 1024 characters a YAML simple key may have */
+#define R10(x) x x x x x x x x x x
 static const char *const sigma[] = {
     "", "a", "abc", "a b", " a", "a ", "  ", "a  b",
     "\n", "a\nb", "a\n", "\na", "a\n\nb", " a\nb", "a\n b", "a \nb",
@@ -50,6 +54,14 @@ static const char *const sigma[] = {
     "{", "}", "[a]", "{a: b}", "*x", "&x", "!t", "|", ">", "?", "? a", ",",
     "\\", "a\\nb", "@", "`", "---", "...", "<<", "=", "a=b", "a.b", "x[0]",
     "0", "a-b",
+    R10("lorem ipsum "),
+    R10(R10("k")),
+    R10("word word ") "\n second line " R10("more text "),
+    " lead " R10("word word ") "\n  indented " R10("more text ") "\nend",
+    "\n   " R10("after a blank first line ") "\n",
+    R10("nospacesatall") "\n" R10("nospacesatall"),
+    R10(R10(R10("k"))) R10(R10("k")),
+    R10(R10("eleven ch. ")),
 };
 #define NS ((int)(sizeof(sigma) / sizeof(sigma[0])))
 
